@@ -81,6 +81,8 @@ func baseWorld(r *rng) *world {
 		w.Store[id] = c
 		w.Owned[id] = true
 	}
+	// a remote collection (not owned) cached locally
+	w.Store[remote+"/cols/9"] = jmap{"@context": asCtx, "type": "Collection", "id": remote + "/cols/9", "items": []interface{}{actorID(remote, "erin")}}
 	// a remote note (not owned) cached locally
 	rn := remote + "/notes/9"
 	w.Store[rn] = jmap{"@context": asCtx, "type": "Note", "id": rn, "content": "remote"}
@@ -236,7 +238,7 @@ func genInbox(r *rng, ty string, k int) *scenario {
 			objs = append(objs, actorID(remote, pick(r, []string{"carol", "dave", "zed"})))
 		}
 		for i := 0; i < 1+r.intn(3); i++ {
-			targets = append(targets, pick(r, []string{local + "/cols/1", local + "/cols/2", remote + "/cols/7", local + "/notes/1"}))
+			targets = append(targets, pick(r, []string{local + "/cols/1", local + "/cols/2", remote + "/cols/7", remote + "/cols/9", local + "/notes/1"}))
 		}
 		if r.chance(1, 3) { // the same target named twice
 			targets = append(targets, targets[0])
@@ -421,7 +423,7 @@ func genOutbox(r *rng, ty string, k int) *scenario {
 			objs = append(objs, actorID(remote, pick(r, []string{"carol", "dave", "zed"})))
 		}
 		for i := 0; i < 1+r.intn(3); i++ {
-			targets = append(targets, pick(r, []string{local + "/cols/1", local + "/cols/2", remote + "/notes/9", local + "/notes/1"}))
+			targets = append(targets, pick(r, []string{local + "/cols/1", local + "/cols/2", remote + "/notes/9", remote + "/cols/9", local + "/notes/1"}))
 		}
 		if r.chance(1, 3) { // the same target named twice
 			targets = append(targets, targets[0])
@@ -1055,7 +1057,7 @@ func genEffects(r *rng, ty string, k int) *scenario {
 			objs = append(objs, iriOrEmbedded(r, pick(r, people)))
 		}
 		for i := 0; i < 1+r.intn(3); i++ {
-			targets = append(targets, pick(r, []string{local + "/cols/1", local + "/cols/2", local + "/cols/3", local + "/cols/4", remote + "/notes/9", local + "/notes/1"}))
+			targets = append(targets, pick(r, []string{local + "/cols/1", local + "/cols/2", local + "/cols/3", local + "/cols/4", remote + "/notes/9", remote + "/cols/9", local + "/notes/1"}))
 		}
 		body["object"] = one(objs)
 		body["target"] = one(targets)
